@@ -148,7 +148,38 @@ def policy_idle(body, cfg):
     return dict(suspensions=[], assignments=[])
 
 
-POLICIES = dict(naive=policy_naive, random=policy_random, idle=policy_idle)
+def policy_mixing(body, cfg):
+    """packs one ready operator of each of TWO DIFFERENT pipelines into one assignment (admissible: Assignment does
+    not forbid it; the container then reports under the first operator's pipeline); pairs as long as a pool has
+    room; when no pair can be placed it behaves like the naive-like policy"""
+    rng = random.Random(f"mix/{cfg['seed']}/{body['tick']}")
+    allp = body['new_pipelines'] + body['other_pipelines']
+    cand = []
+    for p in allp:
+        if p['is_complete'] or (p['has_failures'] and not cfg.get('retry')):
+            continue
+        r = ready_ops(p, set())
+        if r:
+            cand.append((p, r[0]))
+    free = {pool['pool_id']: [pool['avail_cpu'], pool['avail_ram_gb']] for pool in body['pools']}
+    asg = []
+    for k in range(0, len(cand) - 1, 2):
+        (p1, o1), (p2, o2) = cand[k], cand[k + 1]
+        cpu = rng.randint(1, 2)
+        ram = rng.choice([1, 2, 2, 3])
+        pool = next((pid for pid, f in free.items() if f[0] >= cpu and f[1] >= ram), None)
+        if pool is None:
+            break
+        free[pool][0] -= cpu
+        free[pool][1] -= ram
+        asg.append(dict(operator_ids=[o1['id'], o2['id']], cpu=cpu, ram_gb=ram, pool_id=pool,
+                        priority=p1['priority'], is_resume=False, force_run=False))
+    if not asg:
+        return policy_naive(body, cfg)
+    return dict(suspensions=[], assignments=asg)
+
+
+POLICIES = dict(naive=policy_naive, random=policy_random, idle=policy_idle, mixing=policy_mixing)
 
 
 # ------------------------------------------------------------------------------------------------
@@ -588,9 +619,6 @@ def monitor(r, tap, stats, err):
                                         f'are not disjoint / duplicate-free: {sorted(both)}')
         if new_ids != ent['new']:
             yield 'payload-truth', f'tick {t}: new_pipelines {new_ids}, arrived in this tick {ent["new"]}'
-        if set(other_ids) != set(seen):
-            yield 'other-set', (f'tick {t}: other_pipelines {other_ids}; announced earlier and not yet reported '
-                                f'complete: {seen}')
         for p in body['new_pipelines'] + body['other_pipelines']:
             pid = p['pipeline_id']
             if pid in reported:
@@ -608,6 +636,9 @@ def monitor(r, tap, stats, err):
             d = dict_diff(got, want, f'pipeline {pid}')
             if d:
                 yield 'payload-truth', f'tick {t}: {d}'
+        if set(other_ids) != set(seen):
+            yield 'other-set', (f'tick {t}: other_pipelines {other_ids}; announced earlier and not yet reported '
+                                f'complete: {seen}')
         for p in body['new_pipelines'] + body['other_pipelines']:
             pid = p['pipeline_id']
             if p.get('is_complete') and pid not in reported:
@@ -639,6 +670,13 @@ def monitor(r, tap, stats, err):
             if n != 1:
                 yield 'complete-once', f'pipeline {pid} reported complete in {n} requests'
         del calls
+
+
+def tap_pipe_of(tap, op_id):
+    for p in tap.arrived:
+        if any(str(o.id) == op_id for o in p.values):
+            return p.pipeline_id
+    return None
 
 
 def call_ticks(tap):
@@ -787,6 +825,25 @@ def gen_segs(rng, tps, ram):
     return segs
 
 
+def gen_mixing_arrivals(rng, tps, nticks, per_poll):
+    """single-operator pipelines and short chains, small fixed memory (so that containers succeed), several per tick:
+    two pipelines are ready at the same time, and a pipeline's last operator completes in the middle of a container"""
+    arrivals = []
+    t = rng.choice([0, 0, 1])
+    for _ in range(rng.randint(2, 5)):
+        if t >= nticks:
+            break
+        for _ in range(rng.choice([2, 2, 3, 4])):
+            n = rng.choice([1, 1, 1, 2, 3])
+            dag = [[j - 1] if j else [] for j in range(n)]
+            segs = [[dict(baseline_cpu_seconds=float(rng.choice([1, 1, 2, 3, 5]) / tps), cpu_scaling='const',
+                          storage_read_gb=float(rng.choice([0, 0, 20.0 / tps])), memory_gb=float(rng.choice([0, 0.25, 0.5, 1])))]
+                    for _ in range(n)]
+            arrivals.append((t, rng.choice([1, 2, 3]), dag, segs))
+        t += rng.choice([1, 2, 5, int(per_poll) + 1, int(3 * per_poll) + 2, rng.randint(3, 30)])
+    return arrivals
+
+
 def gen_rest(rng, force=None):
     tps = rng.choice([1, 2, 2, 4, 10, 10, 100, 1000])
     poll = rng.choice([0.01, 0.1, 0.5, 0.5, 1.0, 1.0, 2.5])
@@ -796,12 +853,15 @@ def gen_rest(rng, force=None):
     nticks = rng.randint(20, 300 if per_poll >= 4 else 120)
     npools = rng.randint(1, 3)
     ram = rng.choice([4, 8, 16, 16.5])
-    policy = rng.choice(['naive', 'naive', 'random', 'random', 'random', 'idle'])
-    multi = rng.random() < 0.7
+    policy = rng.choice(['naive', 'naive', 'random', 'random', 'random', 'idle', 'mixing', 'mixing'])
+    multi = rng.random() < 0.7 or policy == 'mixing'
     r = dict(gen='G-rest', tps=tps, poll=poll, duration=nticks / tps, npools=npools, cpu=rng.choice([2, 4, 8]),
              ram=ram, multi=int(multi), over=int(rng.random() < 0.3),
              policy=dict(name=policy, seed=rng.randrange(10 ** 6), retry=rng.random() < 0.5, multi=multi,
                          p_susp=rng.choice([0.0, 0.5, 0.9]), p_blind=rng.choice([0.0, 0.0, 0.05, 0.2])))
+    if policy == 'mixing':
+        r['arrivals'] = gen_mixing_arrivals(rng, tps, nticks, per_poll)
+        return r
     if tps <= 2 and rng.random() < 0.2:
         r['wl'] = dict(waiting_seconds_mean=rng.choice([5.0, 12.0, 30.0]), num_pipelines=rng.choice([1, 2]),
                        num_operators=rng.choice([1, 2, 3]))
@@ -909,6 +969,11 @@ def run(ctx):
             st['failed_results_sent'] += sum(1 for b in tap.bodies for x in b['results'] if x['error'])
             st['assignments'] += sum(len(x['assignments']) for x in tap.replies)
             st['suspensions'] += sum(len(x['suspensions']) for x in tap.replies)
+            st['containers_mixing_two_pipelines_seen'] += len({c['container_id'] for b in tap.bodies for p in b['pools']
+                                                               for k in ('active_containers', 'suspending_containers')
+                                                               for c in p[k] if c['pipeline_id'] == 'multiple_pipelines'})
+            st['mixed_assignments'] += sum(1 for x in tap.replies for a in x['assignments']
+                                           if len({tap_pipe_of(tap, i) for i in a['operator_ids']}) > 1)
             st['runs_ended_by_executor_assertion'] += info['err'] is not None
             st['paired_stats_compared'] += info['err'] is None and not h
             st['boundary_ticks_followed'] += ip.followed
@@ -932,7 +997,7 @@ def run(ctx):
         nt.add(tuple(case['inp']))
     return dict(cases=cases, hits=hits, dist=dict(st), distinct_nontrivial=len(nt),
                 rule='G-rest: run_simulator(scheduler_algo=rest) against a loop-back server with a scripted policy '
-                     '(naive-like / random admissible with suspensions / idle), 1-3 pools, tps 1..1000, poll 0.01..2.5 s, '
+                     '(naive-like / random admissible with suspensions / idle / mixing operators of two pipelines in one container), 1-3 pools, tps 1..1000, poll 0.01..2.5 s, '
                      '<= 300 ticks, hand-made DAG pipelines or the real WorkloadGenerator; all bodies recorded and checked '
                      'field by field against a tap; the same policy in process, statistics compared; kind 19 = '
                      'bookkeeping of the whole run. G-codec: replies (every fourth malformed) through the real _parse_*; '
